@@ -6,7 +6,7 @@
 (* the model state, which is fed with the REAL balances, commit fees and     *)
 (* dust limits recorded on the Reset/Inject lines.                           *)
 (*  kind "tx"  (harness/lnwallet/c17_test.go): Reset, Pay, Inject, Close     *)
-(*             Rbf (harness/lnwallet/chancloser/c17_rbf_test.go)             *)
+(*             Rbf, RbfM (harness/lnwallet/chancloser/c17_rbf_test.go)       *)
 (*  kind "neg" (harness/lnwallet/chancloser/c17_test.go): Reset, Begin,      *)
 (*             Cache, Recv, NegEnd                                           *)
 EXTENDS CoopClose, Json
@@ -25,6 +25,7 @@ NegIdleNext == /\ ideal' = [p \in P |-> 0] /\ maxfee' = [p \in P |-> 0] /\ last'
 
 \* field copies of what the executor read from both channel states
 ChanOf(r) == [opener |-> r.opener, anchors |-> r.anchors = 1, taproot |-> r.taproot = 1,
+              scr  |-> [m \in P |-> [p \in P |-> 0]],
               dust |-> [p \in P |-> [q \in P |-> r.dust[p][q]]],
               view |-> [p \in P |-> [our |-> r.view[p].our, their |-> r.view[p].their, cfee |-> r.view[p].cfee]]]
 
@@ -47,6 +48,7 @@ TNext ==
   \/ Is("Pay") /\ Pay(Trace[l].p, Trace[l].x) /\ UNCHANGED negVars
   \/ Is("Close") /\ CloseAt(Trace[l].x, Trace[l].p) /\ UNCHANGED negVars
   \/ Is("Rbf") /\ RbfRound(Trace[l].x, Trace[l].p) /\ UNCHANGED negVars
+  \/ Is("RbfM") /\ RbfOffer(Trace[l].x, Trace[l].p, Trace[l].k) /\ UNCHANGED negVars
   \/ Is("Begin") /\ Trace[l].p = ch.opener /\ Begin
   \/ Is("Cache") /\ UNCHANGED vars       \* closing_signed arriving before the flush: stored, nothing happens
   \/ Is("Recv") /\ turn = Trace[l].p /\ msg = Trace[l].x /\ Receive
@@ -55,8 +57,8 @@ TNext ==
 TSpec == TInit /\ [][TNext]_<<vars, l>>
 
 Live == l > 1
-IsTx == Live /\ (Last.a \in {"Pay", "Inject", "Close", "Rbf"} \/ (Last.a = "Reset" /\ Last.kind = "tx"))
-AtClose == Live /\ Last.a \in {"Close", "Rbf"}
+IsTx == Live /\ (Last.a \in {"Pay", "Inject", "Close", "Rbf", "RbfM"} \/ (Last.a = "Reset" /\ Last.kind = "tx"))
+AtClose == Live /\ Last.a \in {"Close", "Rbf", "RbfM"}
 
 \* ---- transaction layer ----
 ConformCfg  == (Live /\ Last.a = "Reset" /\ Last.kind = "tx") => Last.cap = Capacity
@@ -81,6 +83,13 @@ SameBytes   == AtClose => ((tx["A"].res = "ok" /\ tx["B"].res = "ok") =>
                               (Last.propeq = 1 /\ Last.txeq = 1 /\ Last.raweq = 1))
 \* each completed transaction is valid against the funding output (script engine; implies both signatures verify)
 EngineOk    == AtClose => \A p \in P : tx[p].res = "ok" => Last.eng[p] = 1
+
+\* multi-round RBF: what went over the wire and what each transaction pays are the CURRENT close terms
+ConformScripts == (Live /\ Last.a = "RbfM" /\ tx[Last.p].res = "ok") =>
+                    LET c == Last.p  e == Other(Last.p) IN
+                    /\ Last.ann.cc_closer = ch.scr[c][c] /\ Last.ann.cc_closee = ch.scr[c][e]
+                    /\ Last.ann.cs_closer = ch.scr[e][c] /\ Last.ann.cs_closee = ch.scr[e][e]
+                    /\ \A p \in P : \A o \in P : Last.has[p][o] = 1 => Last.sidx[p][o] = ch.scr[o][o]
 
 \* ---- negotiation ----
 AtNeg == Live /\ Last.a \in {"Begin", "Recv"}
